@@ -145,6 +145,14 @@ class ContinueParentStageHandler(StabilizeHandler[ContinueParentStage]):
             return
 
         if not all_complete:
+            # What is unfinished waits for a signal or an operator (SUSPENDED /
+            # PAUSED), possibly for longer than any retry budget. The waiting
+            # before-stage's own completion sends ContinueParentStage again, so
+            # neither poll nor give up on it here.
+            waiting = {WorkflowStatus.SUSPENDED, WorkflowStatus.PAUSED}
+            if all(s.status in CONTINUABLE_STATUSES or s.status in waiting for s in before_stages):
+                return
+
             # Not all before-stages complete yet - check retry count
             retry_count = message.retry_count or 0
             max_retries = self.handler_config.max_stage_wait_retries
